@@ -41,8 +41,8 @@ package bttest
 //@   ensures forall i :: 0 <= i < len(r.Families) ==> colsSorted(r.Families[i].Columns)
 // frame of the two whole-heap designators: only the families of r (their Columns field and column array) are touched,
 // so a second row built side by side (the response row of ReadModifyWriteRow) keeps its structure
-//@   ensures forall f *btpb.Family :: (forall k :: 0 <= k < old(len(r.Families)) ==> old(r.Families[k]) != f) ==> f.Columns == old(f.Columns)
-//@   ensures forall s []*btpb.Column, j :: 0 <= j < len(s) && (forall k :: 0 <= k < old(len(r.Families)) ==> old(obj(r.Families[k].Columns)) != obj(s)) ==> s[j] == old(s[j])
+//@   ensures forall f *btpb.Family :: !fresh(f) && (forall k :: 0 <= k < old(len(r.Families)) ==> old(r.Families[k]) != f) ==> f.Columns == old(f.Columns)
+//@   ensures forall s []*btpb.Column, j :: 0 <= j < len(s) && !fresh(s) && (forall k :: 0 <= k < old(len(r.Families)) ==> old(obj(r.Families[k].Columns)) != obj(s)) ==> s[j] == old(s[j])
 
 // ---------------------------------------------------------------------------------------------
 // applyMutations
@@ -188,7 +188,10 @@ package bttest
 
 // Two rows under construction share no family, no column, and no family / column / cell array (the request row r and
 // the response row of ReadModifyWriteRow are built side by side).
-//@ spec rowsApart(a *btpb.Row, b *btpb.Row) bool = a != b && (obj(a.Families) != obj(b.Families) || obj(a.Families) == 0) && (forall i, k :: 0 <= i < len(a.Families) && 0 <= k < len(b.Families) ==> a.Families[i] != b.Families[k] && (obj(a.Families[i].Columns) != obj(b.Families[k].Columns) || obj(a.Families[i].Columns) == 0)) && (forall i, j, k, l :: 0 <= i < len(a.Families) && 0 <= j < len(a.Families[i].Columns) && 0 <= k < len(b.Families) && 0 <= l < len(b.Families[k].Columns) ==> a.Families[i].Columns[j] != b.Families[k].Columns[l] && (obj(a.Families[i].Columns[j].Cells) != obj(b.Families[k].Columns[l].Cells) || obj(a.Families[i].Columns[j].Cells) == 0))
+//@ spec rowsApartF(a *btpb.Row, b *btpb.Row) bool = a != b && (obj(a.Families) != obj(b.Families) || obj(a.Families) == 0)
+//@ spec rowsApartC(a *btpb.Row, b *btpb.Row) bool = forall i, k :: 0 <= i < len(a.Families) && 0 <= k < len(b.Families) ==> a.Families[i] != b.Families[k] && (obj(a.Families[i].Columns) != obj(b.Families[k].Columns) || obj(a.Families[i].Columns) == 0)
+//@ spec rowsApartK(a *btpb.Row, b *btpb.Row) bool = forall i, j, k, l :: 0 <= i < len(a.Families) && 0 <= j < len(a.Families[i].Columns) && 0 <= k < len(b.Families) && 0 <= l < len(b.Families[k].Columns) ==> a.Families[i].Columns[j] != b.Families[k].Columns[l] && (obj(a.Families[i].Columns[j].Cells) != obj(b.Families[k].Columns[l].Cells) || obj(a.Families[i].Columns[j].Cells) == 0)
+//@ spec rowsApart(a *btpb.Row, b *btpb.Row) bool = rowsApartF(a, b) && rowsApartC(a, b) && rowsApartK(a, b)
 
 //@ func (s *server) ReadModifyWriteRow
 //@   property C06 C13
